@@ -1,4 +1,5 @@
 """C13 - tracing and analysis are repeatable and free of side effects."""
+import json
 import math
 import os
 import random
@@ -34,6 +35,8 @@ TRUSTED_BASE = BASE_TRUSTED + [
     'static extraction tools/c13lib.inplace_params (AST: augmented / subscript assignment to a parameter before it is '
     'rebound) supplies the in-place flags of the caller-array model; validated by comparing the predicted caller array '
     'with the observed one',
+    'TRANSLATION VALIDATION, method level: analysis objects are exercised through every public no-argument method found by '
+    'introspection (view() runs under the Agg backend); methods that need arguments are not called',
     'NaN payload/sign bits are not compared (NumPy scalar and SIMD paths produce different NaN signs); unseeded random '
     'pupil sampling (distribution="random" by name, BSDF scatter) is excluded as the property allows',
 ]
@@ -509,7 +512,49 @@ def check_batch_independence(ctx, offset=5, nl=None):
     return res
 
 
+def check_method_histories(ctx, offset=6, nl=None):
+    """TRANSLATION VALIDATION, method level: for EVERY analysis object of the catalogue, every public query method
+    (found by introspection: centroid, rms_spot_radius, geometric_spot_radius, rms, strehl_ratio, view in every
+    projection, view_residual ...) called repeatedly and interleaved on ONE object; each result compared bit for
+    bit with the same query on a pristine copy, the object's stored state (.data, .psf, .mtf ...) compared deep and
+    bitwise before/after every query, the lens likewise"""
+    c13 = _lib()
+    rng = random.Random(ctx.seed * 13 + offset)
+    nl = nl or ctx.n(3, 30)
+    res = {'name': 'method-histories-on-one-analysis-object (translation validation)', 'n': 0, 'nontrivial': 0,
+           'samples': [], 'disagreements': [],
+           'histogram': {'input_class': 'method-level histories on one analysis object', 'lenses': 0, 'objects': 0,
+                         'classes': {}, 'methods_per_class': {}, 'queries': 0, 'raised': 0}}
+    specs = _specs(ctx, rng, nl, ['coated', 'any', 'vignetting', 'plain', 'polarized', 'newton'])
+    seen = set()
+    for spec in specs:
+        viol, st = c13.method_histories(rng, spec, c13.build)
+        h = res['histogram']
+        h['lenses'] += 1
+        h['objects'] += st['objects']
+        h['queries'] += st['queries']
+        h['raised'] += st['raised']
+        for k, v in st['classes'].items():
+            h['classes'][k] = h['classes'].get(k, 0) + v
+        for k, v in st['methods'].items():
+            h['methods_per_class'][k] = sorted(set(h['methods_per_class'].get(k, [])) | set(v))
+        res['n'] += st['queries']
+        res['nontrivial'] += st['queries'] - st['raised']
+        for x in viol:
+            key = (x['kind'], x['cls'], x['method'], json.dumps(x.get('change', {}).get('only_nan_written')))
+            if key in seen:
+                continue
+            seen.add(key)
+            x = dict(x)
+            x['violates_property'] = True
+            res['disagreements'].append(x)
+    res['samples'].append({'one_object': 'SpotDiagram', 'history_style': 'every public query twice, shuffled',
+                           'methods_found_by_introspection': res['histogram']['methods_per_class'].get('SpotDiagram')})
+    return res
+
+
 def system_checks(ctx):
+    yield check_method_histories(ctx)
     yield check_state_machine(ctx)
     yield check_caller_arrays(ctx)
     yield check_newton_batch(ctx)
@@ -526,6 +571,8 @@ def search(ctx, broken, disagreements):
     r = check_interleavings(ctx, seed_mul=17, offset=9, nl=ctx.n(14, 80))
     out += [d for d in r['disagreements'] if d.get('violates_property')]
     r = check_batch_independence(ctx, offset=11, nl=ctx.n(40, 300))
+    out += [d for d in r['disagreements'] if d.get('violates_property')]
+    r = check_method_histories(ctx, offset=12, nl=ctx.n(5, 40))
     out += [d for d in r['disagreements'] if d.get('violates_property')]
     return out or None
 
@@ -544,7 +591,39 @@ D12_SPEC = {
     'wavelengths': [[0.55, True]], 'telecentric': False}
 
 
+VIEW_MASKS = {'rayfan-view-masks-stored-data': 'RayFan', 'opdfan-view-masks-stored-data': 'OPDFan'}
+CLIP_SPEC = {
+    'object_thickness': float('inf'),
+    'surfaces': [{'type': 'standard', 'radius': 50.0, 'thickness': 5.0, 'is_stop': True,
+                  'material': ['ideal', 1.5168, 0.0], 'aperture': [3.0, 0.0]},
+                 {'type': 'standard', 'radius': -50.0, 'thickness': 45.0, 'material': 'air'}],
+    'aperture': ['EPD', 10.0], 'field_type': 'angle',
+    'fields': [[0.0, 0.0, 0.0, 0.0], [5.0, 0.0, 0.0, 0.0]],
+    'wavelengths': [[0.55, True]], 'telecentric': False}
+VIEW_CTOR = {'RayFan': {'op': 'analysis', 'cls': 'RayFan', 'num_points': 8},
+             'OPDFan': {'op': 'wavefront', 'cls': 'OPDFan', 'num_rays': 7}}
+
+
+def _matches_view_mask(w, f):
+    """<cls>.view() overwrites the stored values of FAILED rays (intensity 0) with NaN in self.data: exactly that
+    class, that method, that kind of change (finite -> NaN only).  A view() that changes the data in any other way,
+    another method, another class, or a changed RESULT does not match."""
+    cls = VIEW_MASKS.get(f['id'])
+    if cls is None or w.get('kind') != 'analysis-object-state-changed':
+        return False
+    if w.get('cls') != cls or w.get('method') != 'view':
+        return False
+    ch = w.get('change') or {}
+    return bool(ch.get('only_nan_written')) and all('.data' in a for a in ch.get('arrays', ['x']))
+
+
 def matches_finding(w, f):
+    if f['id'] in VIEW_MASKS:
+        return _matches_view_mask(w, f)
+    return _matches_d12(w, f)
+
+
+def _matches_d12(w, f):
     """the listed finding is: Optic.trace_generic scales the caller's Px / Py ndarray in place.  Nothing else
     (another call, another argument, a changed result, a changed lens) matches."""
     if f['id'] != D12:
@@ -559,6 +638,11 @@ def matches_finding(w, f):
 
 
 def replay_finding(ctx, f):
+    if f['id'] in VIEW_MASKS:
+        c13 = _lib()
+        cls = VIEW_MASKS[f['id']]
+        r = c13.replay_method_history(CLIP_SPEC, c13.build, VIEW_CTOR[cls], [], 'view', {})
+        return 'analysis-object-state-changed' in r and any(isinstance(x, dict) and x.get('only_nan_written') for x in r)
     if f['id'] != D12:
         return None
     return _d12_reproduces()
